@@ -1,6 +1,6 @@
 SPECIFICATION VSpec
 CONSTANTS
- SweepEvery = 61
+ SweepEvery = 31
  PairFull = FALSE
 ACTION_CONSTRAINT VEmit
 INVARIANT RoundTripLaw
